@@ -93,6 +93,9 @@ class ProvXMLSerializer(Serializer):
         for namespace in bundle.namespaces:
             if namespace not in nsmap:
                 nsmap[namespace.prefix] = namespace.uri
+        if bundle._namespaces._default:
+            # a bundle may have its own default namespace
+            nsmap[None] = bundle._namespaces._default.uri
 
         for key, value in DEFAULT_NAMESPACES.items():
             uri = value.uri
